@@ -15,7 +15,10 @@ RULE = (
     "length 1..3 incl. an ad-hoc and a missing attribute x group_by / group_by_nested x into= x unpack_group; (construct) every "
     "construction path {constructor, extend, +=, +, append, insert, item assignment, from_multiple with nesting <= 3} x "
     "iterables of acceptable elements with at most one unacceptable element (int, None, float, object, str for a TractList, a "
-    "PLSSDesc inside a list) at a random position, for both containers. Oracle: plain-list reference models. Non-trivial: >= 3 "
+    "PLSSDesc inside a list) at a random position, for both containers; (independence) a container built from another one by "
+    "the constructor, copy(), + [], from_multiple, a slice, * n or *= n holds the same elements (n times) and 1..3 later changes "
+    "(pop, append, extend, +=, insert, item assignment, sort, the three filters with drop=True) to either list leave the other "
+    "exactly as it was. Oracle: plain-list reference models. Non-trivial: >= 3 "
     "elements incl. a duplicate or an error (filters/groups); a mixed iterable (construct). Distinct = distinct case."
 )
 ASSUMPTIONS = [
@@ -424,6 +427,105 @@ def cons_classes(c):
     return [f"path={c['path']}", f"container={c['container']}", f"bad={c['bad']}", f"pack={c.get('pack')}"]
 
 
+# independence: a container built from another one is a container of its own ------------------------------------
+# (building, copying, repeating and then changing either list must never add to or take from the other)
+
+BUILD = ["constructor", "copy", "add_empty", "from_multiple", "slice_all", "mul", "imul", "plss_tracts"]
+MUTATE = ["pop", "append", "filter_drop", "filter_errors_drop", "filter_duplicates_drop", "sort", "setitem", "extend", "iadd", "insert"]
+INDEP_CASE = st.fixed_dictionaries({
+    "container": st.sampled_from(["TractList", "TRSList"]), "elems": st.lists(ELEM, min_size=1, max_size=6),
+    "build": st.sampled_from(BUILD), "n": st.integers(0, 3), "mutate": st.lists(st.sampled_from(MUTATE), min_size=1, max_size=3),
+    "side": st.sampled_from(["built", "source"]), "extra": st.lists(ELEM, min_size=1, max_size=2), "pos": st.integers(0, 9),
+})
+
+
+def snapshot(cont):
+    return [(id(x), x.trs) for x in cont]
+
+
+def oracle_independence(c):
+    kind = c["container"]
+    cls = TractList if kind == "TractList" else TRSList
+    src_objs = [mk(e) for e in c["elems"]]
+    desc = None
+    if c["build"] == "plss_tracts":
+        desc = PLSSDesc("T154N-R97W Sec 14: NE/4, Sec 15: W/2, Sec 16 - 18: Lots 1 - 3")
+        source = desc.tracts
+        if kind == "TRSList":
+            source = TRSList(desc.tracts)
+    else:
+        source = cls(src_objs)
+    want_src = snapshot(source)
+    n = c["n"]
+    how = c["build"]
+    if how in ("constructor", "plss_tracts"):
+        built = cls(source)
+    elif how == "copy":
+        built = source.copy()
+    elif how == "add_empty":
+        built = source + []
+    elif how == "from_multiple":
+        built = cls.from_multiple(source)
+    elif how == "slice_all":
+        built = cls(source[:])
+    elif how == "mul":
+        built = source * n
+    else:
+        built = source.copy()
+        built *= n
+    rep = n if how in ("mul", "imul") else 1
+    label = f"{kind} built by {how}" + (f" x{n}" if how in ("mul", "imul") else "")
+    ctx = dict(container=kind, build=how, n=n, source=[t for _, t in want_src])
+    fails = []
+    if type(built) is not cls:
+        return [Failure(f"built_wrong_type:{how}", f"{label}: result is a {type(built).__name__}", **ctx)]
+    if [t for _, t in snapshot(built)] != [t for _, t in want_src] * rep:
+        return [Failure(f"built_elements:{how}", f"{label}: holds {[x.trs for x in built]}, source holds {ctx['source']}", **ctx)]
+    if kind == "TractList" and [i for i, _ in snapshot(built)] != [i for i, _ in want_src] * rep:
+        return [Failure(f"built_instances:{how}", f"{label}: does not hold the supplied Tract instances", **ctx)]
+    if snapshot(source) != want_src:
+        return [Failure(f"source_changed_by_building:{how}", f"{label}: building changed the source list", **ctx)]
+    # now change one of the two, the other must stay as it is
+    victim, other = (built, source) if c["side"] == "built" else (source, built)
+    other_before = snapshot(other)
+    for op in c["mutate"]:
+        m = len(victim)
+        new = [mk(e) for e in c["extra"]]
+        if op == "pop":
+            if m:
+                victim.pop(c["pos"] % m)
+        elif op == "append":
+            victim.append(new[0])
+        elif op == "extend":
+            victim.extend(new)
+        elif op == "iadd":
+            victim += new
+        elif op == "insert":
+            victim.insert(c["pos"] % (m + 1), new[0])
+        elif op == "setitem":
+            if m:
+                victim[c["pos"] % m] = new[0]
+        elif op == "sort":
+            victim.custom_sort("s.rev,r.ew,t.sn")
+        elif op == "filter_drop":
+            victim.filter(lambda x: x.sec_num is not None and x.sec_num % 2 == 0, drop=True)
+        elif op == "filter_errors_drop":
+            victim.filter_errors(drop=True, undef=True)
+        elif op == "filter_duplicates_drop":
+            victim.filter_duplicates("trs", drop=True)
+        if snapshot(other) != other_before:
+            fails.append(Failure(f"aliased:{how}", f"{label}: {op} on the {c['side']} list changed the other list from {[t for _, t in other_before]} to {[x.trs for x in other]}",
+                                 op=op, side=c["side"], **ctx))
+            return fails
+    if desc is not None and c["side"] == "built" and snapshot(desc.tracts) != (want_src if kind == "TractList" else snapshot(desc.tracts)):
+        fails.append(Failure("aliased:plss_tracts", f"{label}: the description's own tracts changed", **ctx))
+    return fails
+
+
+def indep_classes(c):
+    return [f"build={c['build']}", f"container={c['container']}", f"side={c['side']}"] + [f"mutate={m}" for m in c["mutate"]]
+
+
 SUBS = [
     Sub("filters", oracle_filter, strategy=lambda tier: FILTER_CASE, nontrivial=lambda c: bool(_last.get("nt")), classes=filter_classes, render=lambda c: c,
         n={"quick": 1000, "thorough": 12000}, shards={"quick": 6, "thorough": 16},
@@ -435,4 +537,7 @@ SUBS = [
     Sub("construct", oracle_construct, strategy=lambda tier: CONS_CASE, nontrivial=lambda c: c["bad"] is not None, classes=cons_classes, render=lambda c: c,
         n={"quick": 1000, "thorough": 12000}, shards={"quick": 4, "thorough": 16},
         essential=tuple(f"path={p}" for p in PATHS) + tuple(f"bad={b}" for b in BAD) + ("pack=tractlist", "pack=samelist")),
+    Sub("independence", oracle_independence, strategy=lambda tier: INDEP_CASE, nontrivial=lambda c: len(c["elems"]) >= 2, classes=indep_classes, render=lambda c: c,
+        n={"quick": 600, "thorough": 8000}, shards={"quick": 4, "thorough": 16},
+        essential=tuple(f"build={b}" for b in BUILD) + ("side=source", "side=built", "mutate=filter_drop", "mutate=pop")),
 ]
